@@ -43,6 +43,16 @@ class Space:
     def __deepcopy__(self, memo):
         return self
 
+    def nrows(self):
+        """term for the number of rows.  The rows of a symbolic input table (a root) are what every column term ranges over, so
+        a root is marked: a test for 'no rows at all' on it is decided as 'rows exist' when terms are evaluated (every per-row
+        statement is vacuous on an empty table)"""
+        from .terms import call, const
+        s_ = self
+        while s_.parent is not None and s_.how in ("sort", "reverse", "same", "repeat"):  # as many rows (or a positive multiple)
+            s_ = s_.parent
+        return call("nrows", const(self.id), const("input")) if s_.how == "root" and s_.parent is None else call("nrows", const(self.id))
+
     def same(self, other):
         if other is None:
             return False
